@@ -26,7 +26,7 @@ SIG = "C11:mcmc"
 
 def gen_cases(ctx, n=None):
     rng = rng_for(ctx, 11)
-    n = n or (5 if ctx.tier == "quick" else 40)
+    n = n or (8 if ctx.tier == "quick" else 40)
     out = []
     for k in range(n):
         spec = K.gen_spec(rng, n_max=6, tier=ctx.tier, full_frac=0.0)
@@ -37,6 +37,17 @@ def gen_cases(ctx, n=None):
             spec["theta"]["s"] = 0.75 * (1.0 if spec["data_unit"] == "km/s" else 1000.0)
         if k % 2 == 0:  # uncertainties handed over in another unit than the velocities
             spec["err_unit"] = "m/s" if spec["data_unit"] == "km/s" else "km/s"
+        if k % 4 == 1:
+            # the default K prior declared in m/s, wide enough that the unconverted cap (500 km/s) would matter if it were read in m/s
+            spec["kprior"] = "default"
+            spec["lin"][0]["mu"] = 0.0
+            sk = spec["sigma_K0"]
+            if sk[1] == "km/s":
+                spec["sigma_K0"] = (sk[0] * 1000.0, "m/s")
+        if k % 4 == 3 and spec["n_off"] == 0:
+            # an explicit reference epoch inside the time span: the orbit's phase and the trend count time from it, not from the first epoch
+            spec["t_ref"] = float(min(spec["surveys"][0]["t"]) + 17.25)
+            spec.pop("t_ref_scale", None)
         spec["n_samples"] = [1, 4, 5][int(rng.integers(0, 3))]
         spec["pt_seed"] = int(rng.integers(0, 2**31))
         out.append(spec)
@@ -94,6 +105,13 @@ def observe(spec):
         rv_names = [v.name for v in model.free_RVs]
         outs = [model["model_rv"], model["ln_likelihood"], pm.logp(model["obs"], y_obs).sum()]
         fn = pytensor.function([p[nm] for nm in rv_names], outs, on_unused_input="ignore")
+        # the prior the MCMC model puts on K, as a function of (K; P, e): must be the one the sampler marginalised against
+        k_logp_fn = None
+        if spec["kprior"] == "default" and "K" in rv_names:
+            import pytensor.tensor as pt_
+
+            kv = pt_.dscalar("kv")
+            k_logp_fn = pytensor.function([kv, p["P"], p["e"]], pm.logp(p["K"], kv), on_unused_input="ignore")
     # which input row the initial point is
     P_init = float((np.asarray(init["P"]) * prior_unit(prior, "P")).to_value(u.day))
     # the input row the initial point was built from: periods may tie, so the row is identified by period AND eccentricity
@@ -122,13 +140,30 @@ def observe(spec):
         theta = dict(P=float(phys["P"].to_value(u.day)), e=float(phys["e"].value), omega=float(phys["omega"].to_value(u.rad)), M0=float(phys["M0"].to_value(u.rad)),
                      s=float(phys["s"].to_value(du)))
         x = [float(phys[nm].to_value(du / u.day ** K.lin_power(nm))) for nm in names]
-        obs["points"].append(dict(which=which, theta=theta, x=x, model_rv=np.asarray(model_rv, float), lnlike=float(lnlike), data_term=float(data_term), val=val))
+        pt_rec = dict(which=which, theta=theta, x=x, model_rv=np.asarray(model_rv, float), lnlike=float(lnlike), data_term=float(data_term), val=val)
+        if k_logp_fn is not None:
+            with warnings.catch_warnings():
+                warnings.simplefilter("ignore")
+                pt_rec["K_logp"] = float(k_logp_fn(np.float64(val["K"]), np.float64(val["P"]), np.float64(val["e"])))
+            # the sampler's rule (C01/C09), in the unit the K prior is declared in
+            Ku = prior_unit(prior, "K")
+            sk = (spec["sigma_K0"][0] * u.Unit(spec["sigma_K0"][1])).to_value(Ku)
+            mk = ((spec["max_K"] * u.Unit(spec.get("max_K_unit", "km/s"))) if spec["max_K"] is not None else 500.0 * u.km / u.s).to_value(Ku)
+            P0d = float((spec["P0"][0] * u.Unit(spec["P0"][1])).to_value(u.day))
+            sig = min(sk * (theta["P"] / P0d) ** (-1 / 3) / math.sqrt(1 - theta["e"] ** 2), mk)
+            pt_rec["K_logp_expected"] = -0.5 * (val["K"] / sig) ** 2 - math.log(sig) - 0.5 * math.log(2 * math.pi)
+        obs["points"].append(pt_rec)
     obs["expected_init"] = {nm: float(smp[nm][row].to_value(prior_unit(prior, nm))) for nm in prior.par_names}
     return obs
 
 
 def predicate(spec, obs, outs):
     errs = []
+    for pt in obs["points"]:
+        if "K_logp" in pt and abs(pt["K_logp"] - pt["K_logp_expected"]) > 2e-6 * max(1.0, abs(pt["K_logp_expected"])):
+            errs.append(f"{pt['which']} point: the MCMC model's prior log-density of K is {pt['K_logp']!r}, the sampler's K prior "
+                        f"Normal(0, min(sigma_K0 (P/P0)^(-1/3)/sqrt(1-e^2), max_K)) gives {pt['K_logp_expected']!r} "
+                        f"[sigma_K0 {spec['sigma_K0']}, max_K {spec['max_K']} {spec.get('max_K_unit', 'km/s')}, P={pt['theta']['P']}, e={pt['theta']['e']}]")
     m = len(obs["Ps"])
     Ps = np.array(obs["Ps"])
     Pi = Ps[obs["row"]]
